@@ -57,7 +57,47 @@ pub fn run_case(kvs: &[Kv], geom: Geom, all_bytes: bool, extra: &[Key]) -> Resul
     .and_then(|x| x)
 }
 
+/// Only the given probes plus every key (no closure): for large inputs.
+pub fn run_probes(kvs: &[Kv], geom: Geom, probes: &[Key]) -> Result<u64, String> {
+    let bytes = front::build(Front::RawInsert, geom, kvs)?;
+    let model = model_of(kvs);
+    guard(|| {
+        let f = Fst::new(&bytes[..]).map_err(|e| format!("{:?}", e))?;
+        let m = Map::new(&bytes[..]).map_err(|e| format!("{:?}", e))?;
+        let mut n = 0;
+        let step = (kvs.len() / 20_000).max(1);
+        for p in probes.iter().chain(kvs.iter().step_by(step).map(|x| &x.0)) {
+            n += 1;
+            let want = model.get(p).copied();
+            let got = f.get(p).map(|o| o.value());
+            if got != want || f.contains_key(p) != want.is_some() || m.get(p) != want {
+                return Err(format!("get/contains_key({}) = {:?}, expected {:?}", key_str(p), got, want));
+            }
+        }
+        Ok(n)
+    })
+    .and_then(|x| x)
+}
+
+fn do_probes(kvs: &[Kv], geom: Geom, probes: &[Key], st: &mut Stats, rep: &Reporter) {
+    st.states += 1;
+    match run_probes(kvs, geom, probes) {
+        Ok(n) => {
+            st.evals += n;
+            st.transitions += 3 * n;
+        }
+        Err(msg) => {
+            let case = if kvs.len() > 5000 { json!({"big_dense": true, "geom": [geom.0, geom.1], "probes": keys_json(probes)}) } else { json!({"kvs": kvs_json(kvs), "geom": [geom.0, geom.1], "probes": keys_json(probes)}) };
+            rep.violation(format!("{} keys from {} {:?}", kvs.len(), key_str(&kvs[0].0), geom), msg, case)
+        }
+    }
+}
+
 pub fn replay(case: &Value) -> Result<String, String> {
+    if !case["probes"].is_null() {
+        let kvs = if case["big_dense"].as_bool() == Some(true) { big_dense_family() } else { kvs_from(&case["kvs"]) };
+        return run_probes(&kvs, geom_from(&case["geom"]), &keys_from(&case["probes"])).map(|n| format!("{} probes agree", n));
+    }
     let kvs = kvs_from(&case["kvs"]);
     let geom = geom_from(&case["geom"]);
     let all = case["all_bytes"].as_bool().unwrap_or(false);
@@ -184,6 +224,41 @@ pub fn plan(tier: Tier) -> Plan {
             }));
         }
     }
+    for part in 0..32usize {
+        p.units.push(unit("fanout-x-output-width-grid", format!("grid part {}", part), move |st, rep| {
+            // probes: every key, and every byte under the wide node and under its children
+            for (_, kvs) in fan_width_grid(part, 32) {
+                let mut extra: Vec<Key> = vec![b"k".to_vec(), b"r".to_vec(), b"ry".to_vec()];
+                for b in 0..=255u8 {
+                    extra.push(vec![b'k', b]);
+                    extra.push(vec![b'r', b'y', b]);
+                }
+                for (k, _) in kvs.iter().take(40) {
+                    extra.push(k.clone());
+                    for b in [0u8, 5, b'a', b'q', 0xff] {
+                        let mut m = k.clone();
+                        if let Some(l) = m.last_mut() { *l = b; }
+                        extra.push(m);
+                    }
+                }
+                st.nontrivial += 1;
+                st.count("grid_cases", 1);
+                do_probes(&kvs, (3, 3), &extra, st, rep);
+            }
+        }));
+    }
+    p.units.push(unit("file-larger-than-16MiB", "big dense".into(), move |st, rep| {
+        let kvs = big_dense_family();
+        let mut extra: Vec<Key> = vec![];
+        for i in (0..kvs.len()).step_by(997) {
+            extra.push(kvs[i].0.clone());
+            let mut m = kvs[i].0.clone();
+            m[1] = 200;
+            extra.push(m);
+        }
+        st.nontrivial += 1;
+        do_probes(&kvs, DEFAULT_GEOM, &extra, st, rep);
+    }));
     p.units.push(unit("long-key-family", "long keys".into(), move |st, rep| {
         for (_, kvs) in long_key_family() {
             if kvs[0].0.len() > 2000 {
